@@ -13,7 +13,6 @@ the property's own monitors then observe the function under test in a process wi
 Calls go through the module attributes at call time, so contracts installed by the property
 under check stay live for the functions it monitors (its monitors simply see more traffic; the
 workload classes and thresholds of the property are not fed from here)."""
-import math
 
 
 class _Root:
@@ -276,5 +275,3 @@ def sanity(ctx, rng):
                 break
     return bad
 
-
-assert math  # imported for generators added later
